@@ -28,7 +28,7 @@ class VSyntaxError(Exception):
 
 TOKEN = re.compile(r'''
    (?P<ws>\s+|//[^\n]*|/\*.*?\*/)
- | (?P<attr>\(\*.*?\*\))
+ | (?P<attr>\(\*(?!\s*\)).*?\*\))       # attribute instance; '(*)' of an event control '@(*)' is not one
  | (?P<num>(?:\d+)?'[sS]?[bBdDhHoO][0-9a-fA-F_xXzZ?]+|\d[\d_]*)
  | (?P<id>[A-Za-z_$][A-Za-z0-9_$]*)
  | (?P<esc>\\[^\s]+)
